@@ -48,6 +48,7 @@ const (
 	evSubW     = "subW"     // Submit(manifest W: well-formed, but its hash is no version of the deployment)
 	evUpdate   = "update"   // dtypes.EventDeploymentUpdated{Version: vB}
 	evUpdate2  = "update2"  // a second, distinct update: dtypes.EventDeploymentUpdated{Version: vC} (C10 version protocol)
+	evUpdateA  = "updateA"  // a later update that returns to the INITIAL version: dtypes.EventDeploymentUpdated{Version: vA}
 	evSubC     = "subC"     // Submit(manifest C: valid for version vC, i.e. only after update2)
 	evClose1   = "close1"   // mtypes.EventLeaseClosed for lease 1 (offered after lease1)
 	evClose2   = "close2"   // mtypes.EventLeaseClosed for lease 2 (offered after lease2)
@@ -69,6 +70,7 @@ type Config struct {
 	Watchdog        bool     // ServiceConfig.ManifestTimeout > 0: watchdog per new lease, virtual timer, scripted close-bid broadcast
 	ChainInvalid    bool     // the on-chain version is the hash of manifest I (so that I passes the version check and fails the structural one)
 	Mode            string   // "" = the C20 oracle; "c10v" = the version-protocol oracle of C10 (checkVersion) only
+	UpperOwner      bool     // the provider record spells its owner address in upper case (legal bech32; Address() is the same account); all event ids stay canonical
 	PreLease        bool     // lease 1 exists before the service starts (fetchExistingLeases / managePreExistingLease)
 	NoQuit          bool     // the environment always fires the whole menu (default: it may stop after any prefix)
 	Budgets         string   // "p,e;p,e;..." iterative deviation bounding
@@ -79,17 +81,18 @@ type Config struct {
 // Fixtures (immutable, built once per process)
 
 type fixtures struct {
-	provider *ptypes.Provider
-	provAddr string
-	owner    string
-	did      dtypes.DeploymentID
-	groups   []dtypes.Group
-	leases   [2]mtypes.LeaseID
-	won      [2]event.LeaseWon
-	mani     map[string]manifest.Manifest // by kind A B I W
-	ver      map[string][]byte            // hash per kind
-	kindOf   map[string]string            // hex hash -> kind
-	byArray  map[*manifest.Group]string   // first element of a fixture manifest's backing array -> kind
+	provider      *ptypes.Provider
+	providerUpper *ptypes.Provider // same account, owner spelled in upper-case bech32
+	provAddr      string
+	owner         string
+	did           dtypes.DeploymentID
+	groups        []dtypes.Group
+	leases        [2]mtypes.LeaseID
+	won           [2]event.LeaseWon
+	mani          map[string]manifest.Manifest // by kind A B I W
+	ver           map[string][]byte            // hash per kind
+	kindOf        map[string]string            // hex hash -> kind
+	byArray       map[*manifest.Group]string   // first element of a fixture manifest's backing array -> kind
 }
 
 var fx fixtures
@@ -128,6 +131,10 @@ func initFixtures() error {
 	own := sdk.AccAddress(bytes.Repeat([]byte{0x22}, 20))
 	fx.provAddr, fx.owner = prov.String(), own.String()
 	fx.provider = &ptypes.Provider{Owner: fx.provAddr}
+	fx.providerUpper = &ptypes.Provider{Owner: strings.ToUpper(fx.provAddr)}
+	if a, err := sdk.AccAddressFromBech32(fx.providerUpper.Owner); err != nil || !a.Equals(prov) || fx.providerUpper.Owner == fx.provAddr {
+		return fmt.Errorf("fixture: upper-case spelling %q of the provider address does not decode to the same account: %v", fx.providerUpper.Owner, err)
+	}
 	fx.did = dtypes.DeploymentID{Owner: fx.owner, DSeq: 7}
 	for gi, gname := range groupNames {
 		fx.groups = append(fx.groups, dtypes.Group{
@@ -237,15 +244,21 @@ type entry struct {
 	err   error
 	hosts string
 	pubh  string // ePub: hash of the manifest the event carried WHEN it was published (identified by content)
-	// eLease / eRm: who handed the value over and the position of that hand-over in the sender's own
-	// sequence of lease hand-overs (sends on a chan event.LeaseWon / chan mtypes.LeaseID); -1 unknown
+	// eLease / eRm / eUpdate / eReq: who handed the value over (service.run) and the position of that
+	// hand-over in the sender's own log slog[from]; -1 unknown
 	from string
 	seq  int
 }
 
 type handover struct {
 	g   string
-	seq int
+	seq int // index in slog[g]
+}
+
+// sitem: one step of the service-side log (see tap)
+type sitem struct {
+	k     byte // 'H' a hand-over to a manager, 'C' a lease-closed event received from the bus
+	lease mtypes.LeaseID
 }
 
 type result struct {
@@ -273,7 +286,7 @@ type inst struct {
 	glog       map[string][]entry
 	respVer    map[*dtypes.QueryDeploymentResponse]string
 	handoff    map[uintptr][]handover // per lease / lease-removal channel: the hand-overs, in send order
-	handSeq    map[string]int         // per sending goroutine: number of lease hand-overs so far
+	slog       map[string][]sitem     // per goroutine: its hand-overs to managers and the lease-closed events it took from the bus, in program order
 	nrecvd     map[uintptr]int
 
 	// environment goroutine
@@ -307,7 +320,7 @@ func newInst(cfg *Config) *inst {
 		glog:    map[string][]entry{},
 		respVer: map[*dtypes.QueryDeploymentResponse]string{},
 		handoff: map[uintptr][]handover{},
-		handSeq: map[string]int{},
+		slog:    map[string][]sitem{},
 		nrecvd:  map[uintptr]int{},
 		fired:   map[string]bool{},
 		ncalls:  map[string]int{},
@@ -360,11 +373,21 @@ func (in *inst) tap(ev vs.TapEvent) {
 		return
 	}
 	if ev.Send {
-		if ev.Elem == tLeaseWon || ev.Elem == tLeaseID {
-			// service.run hands a lease / a lease removal to a manager (into the channel's buffer, if it has one)
-			in.handoff[ev.Chan] = append(in.handoff[ev.Chan], handover{ev.G, in.handSeq[ev.G]})
-			in.handSeq[ev.G]++
+		isReq := false
+		if ev.Elem != tLeaseWon && ev.Elem != tLeaseID && ev.Elem != tBytes {
+			_, isReq = pmanifest.VerifC20RequestOf(ev.Val)
 		}
+		if ev.Elem == tLeaseWon || ev.Elem == tLeaseID || ev.Elem == tBytes || isReq {
+			// a hand-over to a manager (lease, lease removal, version, request): service.run's own sequence
+			// of such hand-overs and of the lease-closed events it took from the bus is kept in slog
+			in.handoff[ev.Chan] = append(in.handoff[ev.Chan], handover{ev.G, len(in.slog[ev.G])})
+			in.slog[ev.G] = append(in.slog[ev.G], sitem{k: 'H'})
+		}
+		return
+	}
+	if c, ok := ev.Val.(mtypes.EventLeaseClosed); ok {
+		// somebody (the bus loops, and service.run) received a lease-closed event from the bus
+		in.slog[ev.G] = append(in.slog[ev.G], sitem{k: 'C', lease: c.ID})
 		return
 	}
 	origin := func() (string, int) {
@@ -388,7 +411,8 @@ func (in *inst) tap(ev vs.TapEvent) {
 		}
 	case tBytes:
 		if v, ok := ev.Val.([]byte); ok {
-			in.logG(ev.G, entry{k: eUpdate, ver: hexv(v)})
+			g, n := origin()
+			in.logG(ev.G, entry{k: eUpdate, ver: hexv(v), from: g, seq: n})
 		}
 	case tResult:
 		if v, ok := ev.Val.(runner.Result); ok {
@@ -414,7 +438,8 @@ func (in *inst) tap(ev vs.TapEvent) {
 			return
 		}
 		if rq := in.reqs[r.Reply]; rq != nil {
-			in.logG(ev.G, entry{k: eReq, req: rq})
+			g, n := origin()
+			in.logG(ev.G, entry{k: eReq, req: rq, from: g, seq: n})
 		}
 	}
 }
@@ -443,9 +468,14 @@ func (b *tapBus) Publish(ev pubsub.Event) error {
 
 type scriptedSession struct{ in *inst }
 
-func (s *scriptedSession) Log() log.Logger                  { return log.NewNopLogger() }
-func (s *scriptedSession) Client() client.Client            { return &scriptedClient{s.in} }
-func (s *scriptedSession) Provider() *ptypes.Provider       { return fx.provider }
+func (s *scriptedSession) Log() log.Logger       { return log.NewNopLogger() }
+func (s *scriptedSession) Client() client.Client { return &scriptedClient{s.in} }
+func (s *scriptedSession) Provider() *ptypes.Provider {
+	if s.in.cfg.UpperOwner {
+		return fx.providerUpper
+	}
+	return fx.provider
+}
 func (s *scriptedSession) ForModule(string) session.Session { return s }
 
 type scriptedClient struct{ in *inst }
@@ -635,6 +665,8 @@ func (in *inst) menu() []action {
 				f = func() { in.update("B") }
 			case evUpdate2:
 				f = func() { in.update("C") }
+			case evUpdateA:
+				f = func() { in.update("A") }
 			case evClose1:
 				f = func() { in.publish(mtypes.NewEventLeaseClosed(fx.leases[0], sdk.NewInt64Coin("uakt", 10))) }
 			case evClose2:
@@ -765,32 +797,8 @@ func (in *inst) checkG(g string, lg []entry, bad func(string), info map[string]i
 		e := &lg[pos]
 		switch e.k {
 		case eLease, eRm:
-			// Leases held = the lease notifications G has consumed so far, applied in the order in which
-			// service.run handed them over (= the order of the events on the bus), not in the order in which
-			// G happened to take them from its channels: with unbuffered channels the two coincide, but a
-			// removal that overtakes the "lease won" it belongs to must not resurrect the lease.
 			lr = append(lr, e)
-			ord := append([]*entry(nil), lr...)
-			sortable := true
-			for _, x := range ord {
-				if x.seq < 0 || x.from != ord[0].from {
-					sortable = false
-				}
-			}
-			if sortable {
-				sort.SliceStable(ord, func(i, j int) bool { return ord[i].seq < ord[j].seq })
-			}
-			held = map[mtypes.LeaseID]int{}
-			nheld = 0
-			for _, x := range ord {
-				if x.k == eLease {
-					held[x.lease]++
-					nheld++
-				} else if n := held[x.lease]; n > 0 {
-					nheld -= n
-					held[x.lease] = 0
-				}
-			}
+			held, nheld = in.heldLeases(lr, lg[:pos+1])
 		case eUpdate:
 			ups = append(ups, verAt{pos, e.ver})
 		case eData:
@@ -832,12 +840,15 @@ func (in *inst) checkG(g string, lg []entry, bad func(string), info map[string]i
 				maxIdx = mine.idx
 			}
 		case ePub:
+			// (re-evaluated here: a lease-closed event that service.run had taken from the bus before its
+			// latest hand-over to G counts, even if service.run never passed it on)
+			held, nheld = in.heldLeases(lr, lg[:pos])
 			lid := e.pub.LeaseID
 			if !lid.DeploymentID().Equals(fx.did) {
 				bad(sig("announce-foreign-lease", "%s announced a manifest for lease %v of another deployment", g, lid))
 			}
 			if nheld == 0 {
-				bad(sig("announce-without-lease", "%s announced a manifest for lease %d while it held no lease of the deployment (leases won and removed so far: %s)", g, lid.GSeq, heldStr(lg[:pos])))
+				bad(sig("announce-without-lease", "%s announced a manifest for lease %d while it held no lease of the deployment (%s)", g, lid.GSeq, in.heldStr(lr, lg[:pos])))
 			} else if held[lid] == 0 {
 				info["announce-for-lease-not-held(other lease held)"]++
 			}
@@ -1107,31 +1118,101 @@ func (in *inst) versionTrail(lg []entry) string {
 	return strings.Join(b, ", ")
 }
 
-func heldStr(lg []entry) string {
-	var b, h []string
-	var lr []entry
-	for _, e := range lg {
+// leaseSteps is the reference for "leases held" when a manager goroutine G is at the end of lg:
+//   - the lease notifications G has consumed (lr), in the order in which service.run handed them over (the
+//     order of the events on the bus) - not in the order in which G took them from its channels: with
+//     unbuffered channels the two coincide, but a removal that overtakes the "lease won" it belongs to must
+//     not resurrect the lease;
+//   - plus every lease-closed event (our provider - compared as ACCOUNTS, not as strings -, this deployment)
+//     that service.run had taken from the bus BEFORE its latest hand-over that G has consumed: the provider
+//     knew of that closure before G got its latest input, whether or not service.run passed it on.
+//
+// Events that are merely published, or taken by service.run after its latest hand-over to G, are in flight
+// and do not count.
+type leaseStep struct {
+	seq   int
+	plus  bool
+	lease mtypes.LeaseID
+	bus   bool
+}
+
+func (in *inst) leaseSteps(lr []*entry, lg []entry) ([]leaseStep, bool) {
+	from, last := "", -1
+	sortable := true
+	for i := range lg {
+		e := &lg[i]
 		switch e.k {
-		case eLease:
-			b = append(b, fmt.Sprintf("+%d", e.lease.GSeq))
-			lr = append(lr, e)
-		case eRm:
-			b = append(b, fmt.Sprintf("-%d", e.lease.GSeq))
-			lr = append(lr, e)
+		case eLease, eRm, eUpdate, eReq:
+			if e.seq < 0 || (from != "" && e.from != from) {
+				sortable = false
+			}
+			from = e.from
+			if e.seq > last {
+				last = e.seq
+			}
 		}
 	}
-	sort.SliceStable(lr, func(i, j int) bool { return lr[i].seq < lr[j].seq })
-	for _, e := range lr {
-		if e.k == eLease {
-			h = append(h, fmt.Sprintf("+%d", e.lease.GSeq))
+	var steps []leaseStep
+	for _, x := range lr {
+		steps = append(steps, leaseStep{seq: x.seq, plus: x.k == eLease, lease: x.lease})
+	}
+	if !sortable || from == "" {
+		return steps, false // consumption order; nothing known about the service side
+	}
+	sl := in.slog[from]
+	for i := 0; i <= last && i < len(sl); i++ {
+		if sl[i].k != 'C' || !sl[i].lease.DeploymentID().Equals(fx.did) {
+			continue
+		}
+		if a, err := sdk.AccAddressFromBech32(sl[i].lease.Provider); err != nil || !a.Equals(fx.provider.Address()) {
+			continue
+		}
+		steps = append(steps, leaseStep{seq: i, lease: sl[i].lease, bus: true})
+	}
+	sort.SliceStable(steps, func(i, j int) bool { return steps[i].seq < steps[j].seq })
+	return steps, true
+}
+
+func (in *inst) heldLeases(lr []*entry, lg []entry) (map[mtypes.LeaseID]int, int) {
+	steps, _ := in.leaseSteps(lr, lg)
+	held := map[mtypes.LeaseID]int{}
+	n := 0
+	for _, x := range steps {
+		if x.plus {
+			held[x.lease]++
+			n++
+		} else if k := held[x.lease]; k > 0 {
+			n -= k
+			held[x.lease] = 0
+		}
+	}
+	return held, n
+}
+
+func (in *inst) heldStr(lr []*entry, lg []entry) string {
+	var b, h []string
+	for _, x := range lr {
+		if x.k == eLease {
+			b = append(b, fmt.Sprintf("+%d", x.lease.GSeq))
 		} else {
-			h = append(h, fmt.Sprintf("-%d", e.lease.GSeq))
+			b = append(b, fmt.Sprintf("-%d", x.lease.GSeq))
 		}
 	}
-	if strings.Join(b, " ") == strings.Join(h, " ") {
-		return strings.Join(b, " ")
+	steps, ok := in.leaseSteps(lr, lg)
+	for _, x := range steps {
+		switch {
+		case x.plus:
+			h = append(h, fmt.Sprintf("+%d", x.lease.GSeq))
+		case x.bus:
+			h = append(h, fmt.Sprintf("closed%d", x.lease.GSeq))
+		default:
+			h = append(h, fmt.Sprintf("-%d", x.lease.GSeq))
+		}
 	}
-	return strings.Join(h, " ") + " in the order service.run handed them over; taken by the manager as " + strings.Join(b, " ")
+	if !ok {
+		return "leases won (+) and removed (-) as taken by the manager: " + strings.Join(b, " ")
+	}
+	return "in the order of service.run: " + strings.Join(h, " ") + " (+n lease n handed to the manager, -n its removal handed to the manager, closedn lease-closed event taken from the bus by service.run before its latest hand-over to the manager); taken by the manager as " + strings.Join(b, " ")
 }
 
 // hashOf identifies a manifest by CONTENT (never by the address of the manifest.Manifest value, which may be
